@@ -179,5 +179,39 @@ func CFGPackage(rng *rand.Rand, pkg string, n int) string {
 		b.WriteString(CFGFunc(rng, fmt.Sprintf("F%d", i), o))
 		b.WriteString("\n")
 	}
+	b.WriteString(selectFunc(rng, "Sel0"))
+	return b.String()
+}
+
+// selectFunc returns a function around one select statement whose comm clauses
+// (bare receives, assigning and comma-ok receives of different element types,
+// sends, default) come in a random order: the tuple a Select yields has one
+// component per receive, in clause order, whether or not the clause uses it.
+func selectFunc(rng *rand.Rand, name string) string {
+	clauses := []string{
+		"\tcase <-ca:\n\t\tx++\n",
+		"\tcase <-cb:\n\t\tx += 2\n",
+		"\tcase v := <-cb:\n\t\tx += v\n",
+		"\tcase e := <-cc:\n\t\tif e != nil {\n\t\t\tx += 3\n\t\t}\n",
+		"\tcase p, ok := <-cd:\n\t\tif ok && p != nil {\n\t\t\tx += *p\n\t\t}\n",
+		"\tcase s := <-ce:\n\t\tx += len(s)\n",
+		"\tcase cb <- x:\n\t\tx += 5\n",
+		"\tcase y = <-cb:\n\t\tx += y\n",
+		"\tcase _, ok := <-ca:\n\t\tif !ok {\n\t\t\tx += 7\n\t\t}\n",
+		"\tcase t := <-cf:\n\t\tx += t.a\n",
+	}
+	var b strings.Builder
+	fmt.Fprintf(&b, "type selT struct{ a, b int }\n\nfunc %s(ca chan struct{}, cb chan int, cc chan error, cd chan *int, ce chan string, cf chan selT) int {\n\tx, y := 0, 0\n\t_ = y\n", name)
+	for k := 0; k < 1+rng.IntN(2); k++ {
+		b.WriteString("\tselect {\n")
+		for _, i := range rng.Perm(len(clauses))[:2+rng.IntN(5)] {
+			b.WriteString(clauses[i])
+		}
+		if rng.IntN(3) == 0 {
+			b.WriteString("\tdefault:\n\t\tx--\n")
+		}
+		b.WriteString("\t}\n")
+	}
+	b.WriteString("\treturn x\n}\n")
 	return b.String()
 }
